@@ -220,6 +220,47 @@ def d2_driver_to_raw(n, seed, policy, delivery, fails, d):
         w.close()
 
 
+@scenario
+def d2_property_scoped_policy(n, seed, first, fails):
+    """enableBLOB may name a property (device + name).  Two devices publish same-named BLOB properties: what a
+    connection asks for one device's property never changes what it gets from the OTHER device"""
+    import copy
+
+    from mc.core import e2e
+
+    sp1 = copy.deepcopy(spec())
+    sp1["name"] = "DEV1"
+    w = e2e.World([spec(), sp1], guard_buffers=True)
+    try:
+        link = w.new_link("raw")
+        w.settle()
+        ep = link.server_ep
+        ep.feed(b'<getProperties version="1.7"/>')
+        w.settle()
+        if first == "scoped-Also":
+            ep.feed(b'<enableBLOB device="DEV0" name="BL">Also</enableBLOB>')
+            want1 = False  # nothing was asked for DEV1
+        else:
+            ep.feed(b'<enableBLOB device="DEV1">Also</enableBLOB><enableBLOB device="DEV0" name="BL">Never</enableBLOB>')
+            want1 = True  # DEV1 was enabled device-wide; the later request concerns DEV0 only
+        w.settle()
+        mark = len(ep.written())
+        b = blob_of(n, seed)
+        w.devices[1].g.bl.a.value = b
+        w.devices[1].g.t.a.value = "after-blob"
+        w.settle()
+        tail = ep.written()[mark:].decode("latin1")
+        els, rest = X.split_elements(tail)
+        blobs = [e for e in els if e.startswith("<setBLOBVector") and 'device="DEV1"' in e]
+        dd = "property-scoped-enableBLOB,%s" % first
+        if bool(blobs) != want1:
+            fails.append(("blob-policy", dd, "n=%d: the connection received %d setBLOBVector of DEV1 (expected %s)" % (n, len(blobs), "one" if want1 else "none")))
+        if not any(e.startswith("<setTextVector") for e in els):
+            fails.append(("text-policy", dd, "n=%d: the ordinary update of DEV1 did not arrive" % n))
+    finally:
+        w.close()
+
+
 DAMAGED = {
     "size-mismatch": '<oneBLOB name="A" size="9" format=".x">QUJD</oneBLOB>',
     "bad-base64": '<oneBLOB name="A" size="3" format=".x">@@@@</oneBLOB>',
@@ -598,6 +639,11 @@ def _run(shard, tier, seed, what, res, absorb):
                     d1_element_added_later(n, seed, how, f)
                     absorb(f, dict(kind="added", n=n, seed=seed, how=how))
                     res["executions"] += 1
+            for first in ("scoped-Also", "device-wide-then-scoped-Never"):
+                f = []
+                d2_property_scoped_policy(50, seed, first, f)
+                absorb(f, dict(kind="scoped", n=50, seed=seed, first=first))
+                res["executions"] += 1
             for damage in DAMAGED:
                 for n in (5, 700):
                     f = []
@@ -696,6 +742,8 @@ def _replay(rep):
         d2_large_paused(rep["n"], rep["seed"], f)
     elif k == "added":
         d1_element_added_later(rep["n"], rep["seed"], rep["how"], f)
+    elif k == "scoped":
+        d2_property_scoped_policy(rep["n"], rep["seed"], rep["first"], f)
     elif k == "damaged":
         d2_after_damaged_upload(rep["n"], rep["seed"], rep["damage"], f)
     elif k == "reuse":
